@@ -1,7 +1,7 @@
 #!/bin/bash
-# Development tool (not a MANIFEST command): applies every patch of /verif/mutations to /repo in turn, runs the
+# Development tool (not a MANIFEST command): applies every patch of /verif/mutations to a scratch worktree of /repo HEAD in turn, runs the
 # quick checks of the properties listed in INDEX.tsv, expects a violation for breaking patches and silence for
-# benign ones, and resets /repo after each.  usage: selftest.sh [name-substring]
+# benign ones, and resets the worktree after each.  usage: selftest.sh [name-substring]
 cd /verif; pass=0; fail=0
 while IFS=$'\t' read -r name kind props; do
   [ -n "${1:-}" ] && [[ "$name" != *"$1"* ]] && continue
